@@ -53,6 +53,7 @@ def run(tier, seed):
     absent = json.load(open(os.path.join(common.ROOT, 'oracles', 'absent_forms.json')))
     findings = [f for f in ck.findings if f.get('property') == 'C10']
     files = []
+    wfiles = []
     for y, s in summ.items():
         known = [(f['where']['form'], f['where']['line']) for f in findings
                  if f.get('status') == 'open' and f.get('where', {}).get('year') == y]
@@ -76,6 +77,23 @@ def run(tier, seed):
                'Proof. vm_compute. reflexivity. Qed.',
                'Goal True. idtac "@@PA C10_footprint_%d". Abort.' % y, 'Print Assumptions C10_footprint_%d.' % y]
         files.append((y, known, ck.write_gen('C10_%d.v' % y, '\n'.join(txt) + '\n')))
+        # soundness of the collection against the interpreter, for EVERY line (RefsSound.v): a name a line can wait for is a collected reference
+        wtxt = ['From Coq Require Import ZArith QArith List String Bool.', 'From HV Require Import Forms FormsRefs RefsSound.',
+                'From Gen Require Import Forms%d.' % y, 'Import ListNotations.', 'Open Scope string_scope.',
+                'Definition decls : decls := %s.' % gen_forms.clist(decls_text(H, y, s)),
+                'Theorem C10_waits_collected_%d : forall f l, In f cat -> In l (f_lines f) -> forall c fuel, (forall q st, noneed (x_tax c q st)) ->' % y,
+                '  waits_collected c (vi_of decls f) fuel l.',
+                'Proof. apply catalogue_waits_collected. vm_compute. reflexivity. Qed.',
+                'Goal True. idtac "@@PA C10_waits_collected_%d". Abort.' % y, 'Print Assumptions C10_waits_collected_%d.' % y]
+        wfiles.append((y, ck.write_gen('C10_waits_%d.v' % y, '\n'.join(wtxt) + '\n')))
+    res_w = ck.coqc_many([f for _, f in wfiles], timeout=900)
+    for y, f in wfiles:
+        ok, out = res_w[f]
+        ck.harvest_assumptions(out)
+        ck.oblige('theorem:C10_waits_collected_%d (every line of the catalogue, every store: a name the interpreter waits for was collected by the analysis)' % y, ok, out[-300:] if not ok else '')
+        if not ok:
+            ck.violation('C10:%d:waits-collected' % y, 'ty%d: the reference analysis ran out of its fuel on some line, so its collection is not known to cover what the interpreter can ask for' % y,
+                         {'kind': 'proof-or-correspondence', 'theorem_or_correspondence': 'C10_waits_collected_%d' % y}, found=False)
     res = ck.coqc_many([f for _, _, f in files], timeout=900)
     for y, known, f in files:
         ok, out = res[f]
